@@ -139,6 +139,8 @@ def b_len(interp, x):
         return x.sym_len()
     if isinstance(x, Unknown):
         return Unknown("len")
+    if hasattr(x, "sym_len") and not isinstance(x, (list, tuple, dict, str)):
+        return x.sym_len()
     return len(x)
 
 
